@@ -3,7 +3,7 @@
 patch="$1"; prop="$2"; tier="${3:-quick}"
 cd /repo || exit 2
 if ! git diff --quiet -- src; then echo "repo src dirty"; exit 2; fi
-git apply "$patch" || { echo "patch does not apply"; exit 2; }
+if ! git apply "$patch" 2>/dev/null; then echo "patch does not apply"; git checkout -- . ; exit 2; fi
 cd /verif && ./check "$prop" --tier "$tier" > /tmp/seedtest.$$.log 2>&1; rc=$?
 git -C /repo checkout -- . 
 grep -c '^VIOLATION' /tmp/seedtest.$$.log | sed "s/^/violations: /"
